@@ -13,11 +13,11 @@ import vlib
 PID = "C08"
 
 
-def tcp_frame(payload, sport=40000, dport=443, src=(10, 0, 0, 1), dst=(10, 0, 0, 2), seq=1):
+def tcp_frame(payload, sport=40000, dport=443, src=(10, 0, 0, 1), dst=(10, 0, 0, 2), seq=1, ipopt=b""):
     tcp = bytes([sport >> 8, sport & 255, dport >> 8, dport & 255, (seq >> 24) & 255, (seq >> 16) & 255, (seq >> 8) & 255, seq & 255,
                  0, 0, 0, 1, 0x50, 0x18, 0xff, 0xff, 0, 0, 0, 0]) + bytes(payload)
-    total = 20 + len(tcp)
-    ip = bytes([0x45, 0, total >> 8, total & 255, 0x12, 0x34, 0x40, 0, 64, 6, 0, 0]) + bytes(src) + bytes(dst)
+    total = 20 + len(ipopt) + len(tcp)
+    ip = bytes([0x40 | (5 + len(ipopt) // 4), 0, total >> 8, total & 255, 0x12, 0x34, 0x40, 0, 64, 6, 0, 0]) + bytes(src) + bytes(dst) + ipopt
     eth = bytes([2, 0, 0, 0, 0, 2, 2, 0, 0, 0, 0, 1, 8, 0])
     f = eth + ip + tcp
     # what follows the IP datagram in a captured frame is link-layer trailer, not TCP payload: every other source port pads its short
@@ -231,8 +231,11 @@ def run(tier, v):
             h = hellos[hi]
             cuts = [len(h) // 3, len(h) // 3, len(h) - 2 * (len(h) // 3)]
             fr, p = [], 0
-            for n in cuts:
-                fr.append(tcp_frame(h[p:p + n], sport=43000 + gi * 50 + ci, src=(10, 9, 1 + gi, 1 + ci), seq=1 + p))
+            for k, n in enumerate(cuts):
+                # every second connection crosses routers that fill in an Internet Timestamp option (RFC 791): IP options whose content is
+                # different in every packet of the connection
+                ipopt = bytes([68, 8, 9, 0]) + (0x01020304 * (k + 1) + 977 * ci).to_bytes(4, "big") if ci % 2 == 1 else b""
+                fr.append(tcp_frame(h[p:p + n], sport=43000 + gi * 50 + ci, src=(10, 9, 1 + gi, 1 + ci), seq=1 + p, ipopt=ipopt))
                 p += n
             per.append(fr)
         frames = [per[ci][k] for k in range(3) for ci in range(len(group))]
